@@ -115,6 +115,18 @@ static void merge_scenario(Report& rep, const char* name, uint64_t seed, int src
 			std::set<int64_t> dk; for (auto& p : d1) dk.insert(keyof(p.first));
 			for (auto& p : s1) if (MD::multi || !dk.count(keyof(p.first))) rep.fail(tag + ": item " + std::to_string(p.first) + " stayed in the source although the destination accepts it");
 		}
+		if (MD::multi && tree_height(dst, 0) > 0)
+		{
+			// multi-key tree destination: among equivalent keys the destination's own items stay BEFORE the merged-in source items
+			// (generic / linear insertion at the upper bound; the fast concatenation must respect it: 103bce4)
+			std::set<int64_t> seen_src;
+			for (const auto& e : dst)
+			{
+				int64_t v = e.Value(); bool from_src = (v % 100) < 50 && v < 99990000;
+				if (from_src) seen_src.insert(keyof(v));
+				else if (v < 99990000 && dst0.count(v) && seen_src.count(keyof(v))) { rep.fail(tag + ": destination item " + std::to_string(v) + " comes AFTER a merged-in source item with an equivalent key"); break; }
+			}
+		}
 		if (E::movable && (c1.copy != c0.copy || c1.copy_assign != c0.copy_assign))
 			rep.fail(tag + ": movable elements were copied (" + std::to_string(c1.copy - c0.copy) + " copy constructions, " + std::to_string(c1.copy_assign - c0.copy_assign) + " copy assignments)");
 		size_t ns = 0; for (const auto& e : src) { (void)e; ++ns; } size_t nd = 0; for (const auto& e : dst) { (void)e; ++nd; }
